@@ -31,6 +31,24 @@ CLAIMED = {
         "note": "fsync/power loss, layouts written by other tools, file contents (C02/C05) and externally damaged indexes are not decided.",
         "design": "DESIGN.md §3 C07",
     },
+    "C08": {
+        "technique": "typestate pairing of GCLock/defer GCUnlock on go/ssa, dominating-guard and lockset checks of the sweep, control-dependence test of the mark recursion, value-origin of mark-set keys",
+        "text": "Structural necessary conditions: ImageCopy registers `defer GCUnlock(same locker, same ref)` after GCLock before any return or the copy, and the traversal is reachable only past the lock (or the not-a-GCLocker edge); every removal in Close is dominated by the 'modified' and 'lock count zero' edges and runs under the layout mutex; bookkeeping entries are only dropped behind the lock-count-zero edge and the count only moves by +1 in GCLock / -1 (when positive) in GCUnlock; only functions that rename/remove/rewrite the index mark the layout dirty; the mark phase consults GetManifestList/GetConfig/GetLayers, stores each digest in the mark set, and its recursion is not control-dependent on an entry's media type; the referrers index is pushed as a tagged non-child manifest.",
+        "note": "reachability for every concrete graph, writers other than ImageCopy racing with Close, and eventual removal of unreachable content are not decided.",
+        "design": "DESIGN.md §3 C08",
+    },
+    "C10": {
+        "technique": "must-hold lockset over scheme/reg and scheme/ocidir, cache-call audit with value-origin of keys and values, dominating guards / control dependence for invalidation, reachability of success returns without re-serialisation",
+        "text": "Structural necessary conditions: each function that reads the fallback referrers tag and then writes or deletes it holds one client mutex at the read and at every following write with no unlock in between; every cache access of the registry scheme keys by a Ref.SetDigest-normalised reference; a list fetched with caller filters is cached only behind `ArtifactType == \"\"`; a subject-bearing put invalidates the subject's cached list before the fallback update and independent of the response header; delete invalidates before any request; layout referrer helpers run only under the layout mutex; Add never appends behind the 'digest already present' edge; Add/Delete reach no success return without SetOrig; Delete reports not-found; the API pager appends every page and exits only on the page request's error/next-link result.",
+        "note": "equality with a reference multimap over all histories and schedules, the registry's own referrers API and cross-process races are not decided; a correct locking idiom other than a sync.Mutex field of the client is reported as unrecognised.",
+        "design": "DESIGN.md §3 C10",
+    },
+    "C17": {
+        "technique": "must-hold lockset dataflow over the generic queue bodies (lock identity by generic origin), critical-section reachability (no insertion from a Lock without the admission comparison), path rules for the cancelled waiter and the hand-off index, resource typestate (P8) at every acquisition site of the module",
+        "text": "Structural necessary conditions that hold for every interleaving because they are lock/ownership shape: all accesses to the queue's mutable lists run with the queue mutex held, no method leaks, splits or re-takes it; every insertion is in the same critical section as an admission comparison; a queued waiter returns only with the release function, after deleting itself from both waiting lists, or after release(&e); release closes the waiter's channel under the lock and moves the same index to the active list and out of both waiting lists; AcquireMulti has exactly one blocking Acquire, try-acquires the rest and releases the blocking slot on the retry path; every one of the acquisition sites outside the package releases on every path (call, defer, ownership transfer), and the slot stored in an HTTP response is released before next() acquires another.",
+        "note": "lost wake-ups / livelock over all interleavings, the index arithmetic of AcquireMulti's clean-up and fairness are not decided.",
+        "design": "DESIGN.md §3 C17",
+    },
     "C12": {
         "technique": "custom SSA/CFG checks: request-literal field audit, natural-loop bound classification, retry-counter write discipline, abstract evaluation of the mirror comparator over all atom orderings, must-pass-through release check",
         "text": "Structural necessary conditions, exhaustive over the enumerated sites: every state-changing reghttp.Req literal carries NoMirrors; mirrors are consulted only under !NoMirrors; every loop in reghttp/auth/scheme-reg that can repeat an HTTP request is range-bounded, counter-bounded on every cycle, a listed pager, or the chunk loop with a limit test after every retry increment; the attempt counter is decremented only by Seek; the mirror comparator is evaluated abstractly for every consistent ordering of its atoms against the documented order (known finding D1: priority ascending); the stored throttle slot is released before re-acquisition. Static shape holds for every fault sequence and configuration, which is what the tests cannot enumerate.",
